@@ -62,6 +62,13 @@ func NewLocalReplicator(channel *ReplicatorChannel, shard tsdb.Shard, family tsd
 			logger.Int64("ackIdx", seq))
 	})
 
+	// NOTE: a new(empty) log of a family which already persisted sequences of this leader(write ahead log of a drained
+	// old family is removed by gc task, late write creates it again) must continue after the persisted sequence,
+	// else family refuses all entries until the new log passes the persisted sequence.
+	if persistSeq, ok := family.GetState().AckSequences[lr.leader]; ok && lr.AppendIndex() <= persistSeq {
+		lr.ResetAppendIndex(persistSeq + 1)
+	}
+
 	// reset replica index = ack index + 1, replay wal log
 	lr.ResetReplicaIndex(lr.AckIndex() + 1)
 	family.Retain() // mark family will write data
